@@ -233,6 +233,8 @@ S(MANY(US("a", "kk", "k")), "unit_switch with a two-character short name, repeat
 S(P(O("a", None, "o", "int", -7, "negative default"), P(O("b", "u", "up", "uns", 4294967295), O("c", None, "s", "str", "two words"))),
   "defaults: negative int, largest unsigned, string with a blank")
 
+S(P(A("a", "str"), P(O("b", "out", "o", "int", 1), SW("c", "vv", "v"))), "argument in front of an option with a multi-character short name")
+
 SHAPES = _S
 
 LABELS = ["a", "b", "c", "d", "e", "g", "s", "t", "x", "y", "z"]
